@@ -12,6 +12,7 @@ THEOREMS = [_T + n for n in [
     "multipart_trailing_backslash_fixed", "multipart_trailing_backslash_recovered", "limits_exact",
     "multipart_disposition2231_recovered", "multipart_roundtrip_2231", "limits_exact_2231",
     "urlencoded_utf8_names_mojibake", "urlencoded_utf8_roundtrip_partial", "urlencoded_utf8_roundtrip_refuted",
+    "multipart_roundtrip_prefilled", "multipart_roundtrip_2231_prefilled",
     "multipart_inner_exceptions", "multipart_inner_unicode_error", "part_headers_never_keyerror", "parse_body_outcomes",
 ]]
 TRUSTED = [
@@ -23,7 +24,8 @@ TRUSTED = [
     "the Python encoder's output is compared with it on every generated form",
 ]
 ASSUMPTIONS = [
-    "the `arguments` and `files` dictionaries passed in are empty",
+    "the `arguments` and `files` dictionaries passed to parse_body_arguments are empty (pre-filled dictionaries are exercised at the "
+    "parse_multipart_form_data entry: multipart_roundtrip_prefilled, label inner-prefilled)",
     "RFC 2231 parameters: the single form name*=utf-8''pct (and us-ascii/latin-1) is modelled; continuations and other codecs "
     "answer `Unmodelled` and are excluded from the diff (inside parse_body_arguments every exception becomes HTTPInputError anyway)",
     "quoted-string form: names/filenames contain none of the characters HTTPHeaders refuses in a field value "
@@ -166,6 +168,15 @@ def _header_sizes(body, b):
     return [p.find(b"\r\n\r\n") for p in ps if p and p.find(b"\r\n\r\n") >= 0]
 
 
+def _prefill(rng):
+    """pre-filled `arguments` / `files` dictionaries for the direct parse_multipart_form_data call (as after query-string parsing);
+    names overlap with the generated ones so that appending to an existing key is exercised"""
+    args = [[rng.choice(NAMES[:8]), [rng.choice(VALUES).hex() for _ in range(rng.randint(1, 2))]] for _ in range(rng.randint(0, 2))]
+    files = [[rng.choice(NAMES[:8]), [[rng.choice(FILENAMES), rng.choice(VALUES).hex(), "text/plain"]]] for _ in range(rng.randint(0, 1))]
+    dedup = lambda l: [kv for i, kv in enumerate(l) if kv[0] not in [x[0] for x in l[:i]]]
+    return {"args": dedup(args), "files": dedup(files)}
+
+
 def _form_case(rng, maxparts=6):
     boundary = rng.choice(BOUNDARIES[:4]) if rng.random() < 0.6 else rng.choice(BOUNDARIES)
     form = "q" if rng.random() < 0.7 else "r"
@@ -178,8 +189,11 @@ def _form_case(rng, maxparts=6):
                 p[1] = rng.choice(R_ONLY)
     body = encode_multipart(form, boundary, parts)
     ct = _ctype_header(rng, boundary)
-    return {"kind": "form", "form": form, "boundary": boundary, "parts": parts, "ct": ct, "ce": rng.random() < 0.03,
+    case = {"kind": "form", "form": form, "boundary": boundary, "parts": parts, "ct": ct, "ce": rng.random() < 0.03,
             "cfg": _cfg(rng, parts, body, boundary)}
+    if rng.random() < 0.15:
+        case["pre"] = _prefill(rng)
+    return case
 
 
 RAW_CT = ["multipart/form-data; boundary=b", "multipart/form-data", "multipart/form-dataxyz; boundary=b", "multipart/form-data; boundary=",
@@ -242,8 +256,11 @@ def gen_cases(rng, tier):
                     body = body[:i] + rng.choice([b"", b"\r\n", b"--b", b"\"", b";", b"\\", bytes([rng.randrange(256)])]) + body[i + rng.choice([0, 1]):]
         elif k < 0.6:
             body = bytes(rng.choice(b"-b\r\n:;=\"a \\*'") for _ in range(rng.randint(0, 40)))
-        yield {"kind": "raw", "ct": RAW_CT[0] if rng.random() < 0.5 else rng.choice(RAW_CT), "body": body.hex(), "ce": rng.random() < 0.05,
-               "cfg": {"enabled": rng.random() > 0.03, "max_parts": rng.choice([100, 100, 0, 1, 2]), "max_hdr": rng.choice([10240, 10240, 0, 10, 45])}}
+        case = {"kind": "raw", "ct": RAW_CT[0] if rng.random() < 0.5 else rng.choice(RAW_CT), "body": body.hex(), "ce": rng.random() < 0.05,
+                "cfg": {"enabled": rng.random() > 0.03, "max_parts": rng.choice([100, 100, 0, 1, 2]), "max_hdr": rng.choice([10240, 10240, 0, 10, 45])}}
+        if rng.random() < 0.1:
+            case["pre"] = _prefill(rng)
+        yield case
     # every single-byte mutation of a few small bodies (complete for these bodies)
     for _ in range(n_mut_bodies):
         c = _form_case(rng, maxparts=2)
@@ -312,7 +329,9 @@ def run_impl(case):
     if case["kind"] != "urlenc":
         # the inner entry, outside the catch-all of parse_body_arguments: here the exception TYPE is observable
         # (HTTPInputError vs UnicodeDecodeError …) and is compared with the model's parseMultipart
-        args, files = {}, {}
+        pre = case.get("pre") or {"args": [], "files": []}
+        args = {n: [bytes.fromhex(v) for v in vs] for n, vs in pre["args"]}
+        files = {n: [httputil.HTTPFile(filename=fn, body=bytes.fromhex(b), content_type=t) for fn, b, t in fs] for n, fs in pre["files"]}
         try:
             httputil.parse_multipart_form_data(_inner_boundary(case), body, args, files, config=cfg.multipart)
             out["mp"] = _result(args, files)
@@ -347,7 +366,10 @@ def model_requests(case, impl):
     if case["kind"] == "urlenc":
         out.append(line(ID, _formenc(case), [[n, bytes.fromhex(v)] for n, v in case["fields"]]))
     else:
-        out.append(line(ID, "multipart", c["enabled"], c["max_parts"], c["max_hdr"], _inner_boundary(case), body))
+        pre = case.get("pre")
+        extra = [] if pre is None else [[[[n, [bytes.fromhex(v) for v in vs]] for n, vs in pre["args"]],
+                                         [[n, [[fn, bytes.fromhex(b), t] for fn, b, t in fs]] for n, fs in pre["files"]]]]
+        out.append(line(ID, "multipart", c["enabled"], c["max_parts"], c["max_hdr"], _inner_boundary(case), body, *extra))
     return out
 
 
@@ -481,6 +503,8 @@ def stats(case, impl):
             out.append("r-form:control-character-name" + ("/recovered" if isinstance(r, list) else ""))
     if _key(case) in _SKIP:
         out.append("unmodelled")
+    if case.get("pre") is not None:
+        out.append("inner-prefilled" + ("/ok" if isinstance(impl.get("mp"), list) else ""))
     if "mp" in impl:
         out.append("inner:" + (impl["mp"] if isinstance(impl["mp"], str) else "ok"))
     return out
